@@ -14,20 +14,20 @@ Definition topk_new (k rows cols : N) : outcome topk :=
   | Panic t => Panic t
   end.
 
-(* Insert: count = 0 panics; update the sketch, read the estimate, (re)admit, evict the minimum *)
+(* Insert: count = 0 panics; update the sketch, read the estimate, (re)accept, evict the minimum *)
 Definition topk_insert (t : topk) (x : bytes) (count : N) : outcome topk :=
   if count =? 0 then Panic P_OTHER
   else
     let s := cms_update cpos (t_sketch t) x count in
     let f := cms_count cpos s x in
     let h := t_heap t in
-    let admit :=
+    let accept :=
       if N.of_nat (length h) <? t_k t then Ok true
       else match h with
            | [] => Panic P_INDEX             (* k = 0: t.heap[0] on an empty heap *)
            | e :: _ => Ok (hfreq e <=? f)
            end in
-    match admit with
+    match accept with
     | Ok true =>
         let h1 := match heap_index_of h x 0 with
                   | Some i => heap_remove h i
